@@ -78,7 +78,12 @@ def holds3(lhs, cmp, rhs, eqtol=1e-8, band=1e-9, scale=None, floor=0.0):
         return None
     scale = scale if scale else 1.0 + abs(lhs) + abs(rhs)      # term magnitude when known: the verdict must not depend on an equation's units
     if cmp in ('=', '=='):
-        return abs(lhs - rhs) <= eqtol * scale + floor
+        # three-valued as well: decidedly on the manifold (relative to the magnitude of the terms), decidedly off it, or not judged -
+        # a point whose residual is merely "small" would be classed differently by a rescaled but equivalent equation
+        d = abs(lhs - rhs)
+        if d <= 1e-4 * eqtol * scale: return True
+        if d > 1e2 * eqtol * scale + 1e3 * floor: return False
+        return None
     if abs(lhs - rhs) <= band * scale + floor:
         return None
     return holds(lhs, cmp, rhs)
